@@ -183,3 +183,99 @@ func shortCallees(ss []string) []string {
 	}
 	return out
 }
+
+// checkLockPairing: every Lock()/RLock() of a sync mutex is released on every
+// non-panicking path of the function (explicitly or by a deferred
+// Unlock/RUnlock on the same receiver), and is not re-acquired while held.
+// A path that returns with the lock held deadlocks the next caller.
+func (c *Ctx) checkLockPairing(rule string, pkgRels ...string) int {
+	total := 0
+	for _, pr := range pkgRels {
+		for _, f := range c.funcs(c.pkg(pr)) {
+			bodies := append([]*Fn{f}, c.lits(f)...)
+			for _, b := range bodies {
+				info := b.Info()
+				g := c.graph(b)
+				type lk struct {
+					node int
+					key  string
+					read bool
+					pos  ast.Node
+				}
+				var locks []lk
+				for _, n := range g.Nodes {
+					if n.N == nil {
+						continue
+					}
+					if _, isDefer := n.N.(*ast.DeferStmt); isDefer {
+						continue
+					}
+					for _, call := range callsIn(n.N, false) {
+						d, ok := lockOps[calleeName(info, call)]
+						if !ok || d <= 0 {
+							continue
+						}
+						locks = append(locks, lk{n.ID, lockKey(call), d == 2, call})
+					}
+				}
+				for i, l := range locks {
+					total++
+					rel := "Unlock"
+					if l.read {
+						rel = "RUnlock"
+					}
+					isRel := func(x ast.Node, deep bool) bool {
+						found := false
+						visit := func(y ast.Node) bool {
+							if cl, ok := y.(*ast.CallExpr); ok {
+								nm := calleeName(info, cl)
+								if strings.HasSuffix(nm, ")."+rel) && strings.HasPrefix(nm, "sync.") && lockKey(cl) == l.key {
+									found = true
+								}
+							}
+							return !found
+						}
+						if deep {
+							ast.Inspect(x, visit)
+						} else {
+							inspectShallow(x, visit)
+						}
+						return found
+					}
+					acq := l.node
+					double := false
+					in := g.run(Automaton{
+						Init: 0,
+						OnNode: func(id, st int) int {
+							nd := g.Nodes[id].N
+							if id == acq {
+								if st == 1 {
+									double = true
+								}
+								return 1
+							}
+							if nd == nil || st != 1 {
+								return st
+							}
+							if d, ok := nd.(*ast.DeferStmt); ok {
+								if isRel(d.Call, true) {
+									return 2
+								}
+								return st
+							}
+							if isRel(nd, false) {
+								return 0
+							}
+							return st
+						},
+					})
+					ok := in[g.Exit]&(1<<1) == 0 && !double
+					det := fmt.Sprintf("%s.%s must be followed by %s on every non-panicking path to the function exit (or be deferred) and must not be re-acquired while held", l.key, map[bool]string{false: "Lock", true: "RLock"}[l.read], rel)
+					// a deferred release registered BEFORE the acquire (defer mu.Unlock() after an earlier Lock) also counts
+					c.check(rule, fmt.Sprintf("%s#lock%d", b.Name, i+1), l.pos.Pos(), ok, det)
+				}
+			}
+		}
+	}
+	return total
+}
